@@ -58,11 +58,30 @@ func xmlLegal(s string) bool {
 // c17Prepare builds the provider for a site and returns a function that performs the request whose reply is
 // the auto-submit page with the given RelayState and consumer/logout URL (failAt > 0: the n-th Write fails).
 // ok=false: the value cannot be placed there (e.g. XML-illegal characters in SP metadata).
+// c17Configs: provider configurations a render site can be crossed with ("site@config").
+var c17Configs = map[string]world.Config{
+	"":                   {},
+	"insecure":           {Insecure: true},
+	"insecure-host-path": {Insecure: true, IssuerMode: "host", HostPath: "saml", WantSigned: "true"},
+}
+
+func c17SiteCfg(site string) (string, world.Config) {
+	if i := strings.Index(site, "@"); i >= 0 {
+		c, ok := c17Configs[site[i+1:]]
+		if !ok {
+			panic("c17: configuration " + site[i+1:])
+		}
+		return site[:i], c
+	}
+	return site, world.Config{}
+}
+
 func c17Prepare(site, relay, target string, w *world.World) (*world.World, func(failAt int) *world.Reply, bool) {
 	fresh := w == nil
+	site, siteCfg := c17SiteCfg(site)
 	if fresh {
 		var err error
-		if w, err = world.New(world.Config{}); err != nil {
+		if w, err = world.New(siteCfg); err != nil {
 			panic(err)
 		}
 		w.Store.AddUser(&world.User{ID: "u-alice", Username: "alice", Email: "alice@example.com"})
@@ -210,7 +229,8 @@ func c17Judge(c c17Case) (class string, clauses []string, detail map[string]any)
 		}
 		page = p
 	}
-	cl, more := c17JudgePage(c.Site, relay, target, page, detail)
+	baseSite, _ := c17SiteCfg(c.Site)
+	cl, more := c17JudgePage(baseSite, relay, target, page, detail)
 	return cl, append(clauses, more...), detail
 }
 
@@ -359,6 +379,19 @@ func runC17(ctx Ctx) int {
 			}
 		}
 	}
+	// the same pages from providers in insecure mode (a configuration switch must not turn the URL filter off)
+	for _, cfg := range []string{"insecure", "insecure-host-path"} {
+		for _, site := range c17Sites {
+			for _, slot := range []string{"relay", "url-embedded", "url-raw"} {
+				if cfg != "insecure" && slot == "relay" {
+					continue
+				}
+				for _, v := range values {
+					cases = append(cases, mkC17(site+"@"+cfg, slot, v))
+				}
+			}
+		}
+	}
 	// histories on one provider: earlier request (any site) completing or failing at write 1..4, then a page
 	for _, site := range c17Sites {
 		for _, after := range c17Sites {
@@ -380,6 +413,11 @@ func runC17(ctx Ctx) int {
 		for _, cl := range clauses {
 			// witness: site, slot and the classes of characters involved (not the whole string)
 			labels := []string{"slot=" + c.Slot}
+			vSite := c.Site
+			if i := strings.Index(vSite, "@"); i >= 0 {
+				labels = append(labels, "provider-configuration="+vSite[i+1:])
+				vSite = vSite[:i]
+			}
 			if c.After != "" {
 				labels = append(labels, "after="+c.After, fmt.Sprintf("earlier-writer-fails-at=%d", c.FailAt))
 			}
@@ -388,7 +426,7 @@ func runC17(ctx Ctx) int {
 					labels = append(labels, fmt.Sprintf("contains=%q", s))
 				}
 			}
-			run.Violate(cl, c.Site, labels, detail, c)
+			run.Violate(cl, vSite, labels, detail, c)
 		}
 	})
 	run.Sample(cases[10])
